@@ -61,7 +61,7 @@ func (r *Run) viewFindBug() *findBugView {
 			r.Undecided("findBug#results", ret.Pos(), "findBug no longer returns 5 results")
 			return nil
 		}
-		if isNilConst(p.resolve(ret.Results[4])) {
+		if isNilConst(p.resolve(p.res(ret, 4))) {
 			v.otherRets = append(v.otherRets, ret)
 		} else {
 			v.failRets = append(v.failRets, ret)
@@ -136,16 +136,16 @@ func ruleC07R1(r *Run) {
 	r.OK("findBug#reseed", v.seedSite.Instr.Pos(), "per-case PRNG initialised with "+p.expr(v.seedVal)+" by "+v.seedSite.Key)
 	r.Floor("failure returns of findBug", len(v.failRets), 1)
 	for _, ret := range v.failRets {
-		r.Check("findBug#return-failure.seed", ret.Pos(), p.same(ret.Results[3], v.seedVal),
+		r.Check("findBug#return-failure.seed", ret.Pos(), p.same(p.res(ret, 3), v.seedVal),
 			"failure return reports the initialising value "+p.expr(v.seedVal),
-			"failure return reports "+p.expr(ret.Results[3])+" but the PRNG of the failing test case was initialised with "+p.expr(v.seedVal))
-		r.Check("findBug#return-failure.err", ret.Pos(), p.same(ret.Results[4], v.errVal),
+			"failure return reports "+p.expr(p.res(ret, 3))+" but the PRNG of the failing test case was initialised with "+p.expr(v.seedVal))
+		r.Check("findBug#return-failure.err", ret.Pos(), p.same(p.res(ret, 4), v.errVal),
 			"failure return carries the error of this iteration's checkOnce",
-			"failure return carries "+p.expr(ret.Results[4])+" instead of this iteration's checkOnce result")
+			"failure return carries "+p.expr(p.res(ret, 4))+" instead of this iteration's checkOnce result")
 	}
 	for _, ret := range v.otherRets {
-		c, ok := constInt(p.resolve(ret.Results[3]))
-		r.Check("findBug#return-nofailure.seed", ret.Pos(), ok && c == 0, "non-failure return carries seed 0", "non-failure return carries seed "+p.expr(ret.Results[3]))
+		c, ok := constInt(p.resolve(p.res(ret, 3)))
+		r.Check("findBug#return-nofailure.seed", ret.Pos(), ok && c == 0, "non-failure return carries seed 0", "non-failure return carries seed "+p.expr(p.res(ret, 3)))
 	}
 }
 
@@ -219,7 +219,7 @@ func ruleC07R3(r *Run) {
 	if bs := r.MustFn("baseSeed"); bs != nil {
 		n := 0
 		for _, ret := range returnsOf(bs) {
-			res := p.resolve(ret.Results[0])
+			res := p.resolve(p.res(ret, 0))
 			if p.expr(res) == "G:flags.seed" {
 				n++
 				r.Check("baseSeed#return-flag", ret.Pos(), holds(p.facts(ret), "G:flags.seed", "!=", "0"),
@@ -278,12 +278,12 @@ func ruleC07R3(r *Run) {
 			continue
 		}
 		if holds(p.facts(ret), p.expr(extractOr(fb.Value(), 4)), "==", "nil") {
-			c, ok := constInt(p.resolve(ret.Results[3]))
-			r.Check("doCheck#return-pass.seed", ret.Pos(), ok && c == 0, "passing return carries seed 0", "passing return carries seed "+p.expr(ret.Results[3]))
+			c, ok := constInt(p.resolve(p.res(ret, 3)))
+			r.Check("doCheck#return-pass.seed", ret.Pos(), ok && c == 0, "passing return carries seed 0", "passing return carries seed "+p.expr(p.res(ret, 3)))
 			continue
 		}
-		r.Check("doCheck#return-failure.seed", ret.Pos(), p.isResultOf(ret.Results[3], fb.Value(), 3),
-			"failure return carries findBug's reported seed", "failure return carries "+p.expr(ret.Results[3])+" instead of findBug's reported seed")
+		r.Check("doCheck#return-failure.seed", ret.Pos(), p.isResultOf(p.res(ret, 3), fb.Value(), 3),
+			"failure return carries findBug's reported seed", "failure return carries "+p.expr(p.res(ret, 3))+" instead of findBug's reported seed")
 	}
 	// printed
 	n = 0
@@ -435,8 +435,8 @@ func ruleC09R1(r *Run) {
 				}
 				seen[x] = true
 				if ret, okr := x.Instrs[len(x.Instrs)-1].(*ssa.Return); okr {
-					ee, _ := constBool(p.resolve(ret.Results[2]))
-					if !ee && isNilConst(p.resolve(ret.Results[4])) {
+					ee, _ := constBool(p.resolve(p.res(ret, 2)))
+					if !ee && isNilConst(p.resolve(p.res(ret, 4))) {
 						bad = "reaches a plain return at " + p.pos(ret.Pos())
 					}
 				}
@@ -798,17 +798,17 @@ func ruleC09R5(r *Run) {
 	okPass := false
 	for _, ret := range returnsOf(dc) {
 		if holds(p.facts(ret), errKey, "==", "nil") && dominates(fb.Instr, ret) {
-			okPass = p.isResultOf(ret.Results[0], fb.Value(), 0) && p.isResultOf(ret.Results[1], fb.Value(), 1) && p.isResultOf(ret.Results[2], fb.Value(), 2) &&
-				isNilConst(p.resolve(ret.Results[6])) && isNilConst(p.resolve(ret.Results[7]))
+			okPass = p.isResultOf(p.res(ret, 0), fb.Value(), 0) && p.isResultOf(p.res(ret, 1), fb.Value(), 1) && p.isResultOf(p.res(ret, 2), fb.Value(), 2) &&
+				isNilConst(p.resolve(p.res(ret, 6))) && isNilConst(p.resolve(p.res(ret, 7)))
 			r.Check("doCheck#return-pass", ret.Pos(), okPass, "passing return hands findBug's valid/invalid/earlyExit on with nil errors", "passing return does not hand on findBug's counters with nil errors")
 		}
 	}
 	// earlyExit true only on the deadline return
 	n = 0
 	for _, ret := range returnsOf(fbFn) {
-		ee, isConst := constBool(p.resolve(ret.Results[2]))
+		ee, isConst := constBool(p.resolve(p.res(ret, 2)))
 		if !isConst {
-			r.Fail("findBug#earlyExit", ret.Pos(), "earlyExit result is not a constant: "+p.expr(ret.Results[2]))
+			r.Fail("findBug#earlyExit", ret.Pos(), "earlyExit result is not a constant: "+p.expr(p.res(ret, 2)))
 			continue
 		}
 		if !ee {
@@ -821,7 +821,7 @@ func ruleC09R5(r *Run) {
 				okD = true
 			}
 		}
-		r.Check("findBug#earlyExit-guard", ret.Pos(), okD && isNilConst(p.resolve(ret.Results[4])), "earlyExit=true only on the return guarded by the deadline test", "earlyExit=true is returned on a path not guarded by the deadline: "+factsStr(p.facts(ret)))
+		r.Check("findBug#earlyExit-guard", ret.Pos(), okD && isNilConst(p.resolve(p.res(ret, 4))), "earlyExit=true only on the return guarded by the deadline test", "earlyExit=true is returned on a path not guarded by the deadline: "+factsStr(p.facts(ret)))
 	}
 	r.Floor("early-exit returns in findBug", n, 1)
 }
